@@ -303,6 +303,39 @@ func (e *bsEval) evalCall(x *ssa.Call) ([]bseg, bool) {
 			out = append(out, b...)
 		}
 		return out, true
+	case strings.Contains(n, "bigEndian).AppendUint"):
+		// binary.BigEndian.AppendUintN(b, v) = b ‖ BE_N(v)
+		args := x.Call.Args
+		if len(args) < 2 {
+			return nil, false
+		}
+		base, ok := e.eval(args[len(args)-2])
+		if !ok {
+			return nil, false
+		}
+		w := int64(2)
+		if strings.HasSuffix(n, "AppendUint32") {
+			w = 4
+		} else if strings.HasSuffix(n, "AppendUint64") {
+			w = 8
+		}
+		val := args[len(args)-1]
+		out := append([]bseg{}, base...)
+		if k, isK := e.intOf(val); isK {
+			bs := make([]int64, w)
+			for i := int64(0); i < w; i++ {
+				bs[i] = (k >> uint(8*(w-1-i))) & 0xff
+			}
+			return append(out, bseg{Kind: "const", B: bs, N: w}), true
+		}
+		if lc, isL := stripConv(val).(*ssa.Call); isL && calleeName(&lc.Call) == "builtin.len" {
+			src := lc.Call.Args[0]
+			if b, okB := e.env[stripConv(src)]; okB && b.val != nil {
+				src = b.val
+			}
+			return append(out, bseg{Kind: "belen", Src: src, N: w}), true
+		}
+		return append(out, bseg{Kind: "be", Src: val, N: w}), true
 	case n == "(*bytes.Buffer).Bytes":
 		if a, ok := x.Call.Args[0].(*ssa.Alloc); ok {
 			return e.evalBuffer(a, x)
